@@ -359,7 +359,7 @@ fn run_generic(c: &PCfg, seed: u64, jit: bool) -> Value {
         }));
         let _ = tx.send(res);
     });
-    let res = rx.recv_timeout(std::time::Duration::from_secs(60));
+    let res = rx.recv_timeout(std::time::Duration::from_secs(30));
     let (result, got) = match res {
         Err(_) => ("hang".to_string(), vec![]),
         Ok(Err(_)) => ("panic".to_string(), vec![]),
@@ -703,7 +703,7 @@ fn run_api(c: &ApiCase, seed: u64) -> String {
         }));
         let _ = tx.send(r);
     });
-    let res = rx.recv_timeout(std::time::Duration::from_secs(60));
+    let res = rx.recv_timeout(std::time::Duration::from_secs(30));
     let result = match res {
         Err(_) => "{\"k\":\"hang\"}".to_string(),
         Ok(Err(p)) => panic_json(&p),
@@ -716,11 +716,35 @@ fn run_api(c: &ApiCase, seed: u64) -> String {
         std::thread::sleep(std::time::Duration::from_millis(1));
     }
     seq_io::verif::set_hook(None);
+    // how sequential record-set reading with the same capacity batches this input (no expectation, just what it does)
+    let set_sizes: Vec<usize> = {
+        let mut v = vec![];
+        if c.fmt == "fasta" {
+            let mut r = seq_io::fasta::Reader::with_capacity(&c.x[..], c.cap);
+            let mut set = seq_io::fasta::RecordSet::default();
+            while let Some(Ok(())) = r.read_record_set(&mut set) {
+                v.push(set.len());
+                if v.len() > 10000 {
+                    break;
+                }
+            }
+        } else {
+            let mut r = seq_io::fastq::Reader::with_capacity(&c.x[..], c.cap);
+            let mut set = seq_io::fastq::RecordSet::default();
+            while let Some(Ok(())) = r.read_record_set(&mut set) {
+                v.push(set.len());
+                if v.len() > 10000 {
+                    break;
+                }
+            }
+        }
+        v
+    };
     let g = sh.lock().unwrap();
     let count = |t: &str, p: &str| -> usize { g.logs.iter().filter(|(n, _)| n.starts_with(t)).map(|(_, e)| e.iter().filter(|v| v["p"] == p).count()).sum() };
     let calls_v = calls.lock().unwrap();
     format!(
-        "{{\"ev\":\"run\",\"api\":\"{}\",\"fmt\":\"{}\",\"input\":{},\"cap\":{},\"NW\":{},\"Q\":{},\"stop_after\":{},\"rinit_fail\":{},\"recinit_fail_at\":{},\"setinit_fail_at\":{},\"result\":{},\"calls\":[{}],\"nworks\":{},\"nrecinit\":{},\"nsetinit\":{},\"fills_ok\":{},\"senderr\":{},\"sendend\":{},\"recv_ok\":{},\"jobs_started\":{},\"jobs_finished\":{},\"late_events\":{}}}",
+        "{{\"ev\":\"run\",\"api\":\"{}\",\"fmt\":\"{}\",\"input\":{},\"cap\":{},\"NW\":{},\"Q\":{},\"stop_after\":{},\"rinit_fail\":{},\"recinit_fail_at\":{},\"setinit_fail_at\":{},\"result\":{},\"set_sizes\":{:?},\"calls\":[{}],\"nworks\":{},\"nrecinit\":{},\"nsetinit\":{},\"fills_ok\":{},\"senderr\":{},\"sendend\":{},\"recv_ok\":{},\"jobs_started\":{},\"jobs_finished\":{},\"late_events\":{}}}",
         c.api,
         c.fmt,
         jb(&c.x),
@@ -732,6 +756,7 @@ fn run_api(c: &ApiCase, seed: u64) -> String {
         c.recinit_fail_at,
         c.setinit_fail_at,
         result,
+        set_sizes,
         calls_v.join(","),
         works.lock().unwrap().len(),
         ninit.0.load(Ordering::SeqCst),
@@ -764,7 +789,7 @@ pub fn cmd_api(suite: &Value, out: &str, seed: u64) {
             api: api.clone(),
             fmt: fmt.clone(),
             cap: *rng.pick(&[3usize, 5, 8, 16, 32, 64]).max(&3),
-            nw: 1 + rng.below(4) as u32,
+            nw: if rng.chance(1, 3) { 1 } else { 1 + rng.below(4) as u32 },
             q: 1 + rng.below(4),
             stop_after: if rng.chance(1, 3) { 1 + rng.below(6) } else { 0 },
             rinit_fail: faults && api.ends_with("_init") && rng.chance(1, 8),
@@ -773,6 +798,19 @@ pub fn cmd_api(suite: &Value, out: &str, seed: u64) {
             slow_consumer: rng.chance(1, 3),
             x,
         };
+        let mut c = c;
+        if suite["focus"].as_str() == Some("recinit") {
+            // single worker, per-record API, a record_data_init failure somewhere and an early stop somewhere:
+            // which set fails is then determined by the set sizes (see TraceParObs)
+            let nrec = c.x.iter().filter(|b| **b == if fmt == "fasta" { b'>' } else { b'@' }).count().max(1);
+            c.api = "parallel_init".into();
+            c.nw = 1;
+            c.rinit_fail = false;
+            c.setinit_fail_at = 0;
+            c.recinit_fail_at = 1 + rng.below(nrec);
+            c.stop_after = if rng.chance(1, 5) { 0 } else { 1 + rng.below(nrec) };
+            c.cap = *rng.pick(&[3usize, 8, 12, 16, 24, 32]);
+        }
         let line = run_api(&c, seed.wrapping_add(i as u64));
         nruns += 1;
         writeln!(f, "{}", line).unwrap();
